@@ -787,5 +787,6 @@ func c06Controls() []core.Mutant {
 		{Name: "refactor: accounting extracted into a method used by both builders", File: "vm/vm.go", Old: "\t\t\tvm.push(array)\n\t\t\tvm.memory += size\n\t\t\tif vm.memory >= vm.limit {\n\t\t\t\tpanic(\"memory budget exceeded\")\n\t\t\t}\n", New: "\t\t\tvm.push(array)\n\t\t\tvm.account(size)\n", Edits: [][2]string{{"\t\t\tvm.push(m)\n\t\t\tvm.memory += size\n\t\t\tif vm.memory >= vm.limit {\n\t\t\t\tpanic(\"memory budget exceeded\")\n\t\t\t}\n", "\t\t\tvm.push(m)\n\t\t\tvm.account(size)\n"}, {"func (vm *VM) push(value interface{}) {", "func (vm *VM) account(n int) {\n\tvm.memory += n\n\tif vm.memory >= vm.limit {\n\t\tpanic(\"memory budget exceeded\")\n\t}\n}\n\nfunc (vm *VM) push(value interface{}) {"}}, Silent: true},
 		{Name: "refactor: prologue assigns counter and limit in one statement", File: "vm/vm.go", Old: "\tvm.limit = MemoryBudget\n\tvm.memory = 0\n", New: "\tvm.memory, vm.limit = 0, MemoryBudget\n", Silent: true},
 		{Name: "refactor: OpArray check before push", File: "vm/vm.go", Old: "\t\t\tvm.push(array)\n\t\t\tvm.memory += size\n\t\t\tif vm.memory >= vm.limit {\n\t\t\t\tpanic(\"memory budget exceeded\")\n\t\t\t}\n", New: "\t\t\tvm.memory += size\n\t\t\tif vm.memory >= vm.limit {\n\t\t\t\tpanic(\"memory budget exceeded\")\n\t\t\t}\n\t\t\tvm.push(array)\n", Silent: true},
+		{Name: "accounting helper with a value receiver", File: "vm/vm.go", Old: "\t\t\tvm.push(array)\n\t\t\tvm.memory += size\n\t\t\tif vm.memory >= vm.limit {\n\t\t\t\tpanic(\"memory budget exceeded\")\n\t\t\t}\n", New: "\t\t\tvm.push(array)\n\t\t\tvm.charged(size)\n", Edits: [][2]string{{"func (vm *VM) push(value interface{}) {", "func (vm VM) charged(n int) {\n\tvm.memory += n\n\tif vm.memory >= vm.limit {\n\t\tpanic(\"memory budget exceeded\")\n\t}\n}\n\nfunc (vm *VM) push(value interface{}) {"}}, Rule: "R6.1", Construct: "OpArray"},
 	}
 }
